@@ -300,6 +300,104 @@ pub enum DigitUnit {
 }
 proj_enum!(DigitUnit { V2Beta, Utf8Lossy, Sha256 });
 
+/// field names that coincide with names the generated code might use for its own locals
+#[derive(Deserr, Debug)]
+#[deserr(deny_unknown_fields)]
+pub struct Hygiene {
+    state: u8,
+    x: u8,
+    e: u8,
+    v: u8,
+    s: u8,
+    key: u8,
+    value: u8,
+    error: u8,
+    location: u8,
+    map: u8,
+    result: u8,
+    field: u8,
+    tag_value: u8,
+    tag_value_string: u8,
+    #[deserr(default)]
+    deserr_seen: u8,
+    #[deserr(try_from(u64) = vf::try_even -> vf::Odd)]
+    val: u64,
+    #[deserr(map = vf::inc_u8)]
+    res: u8,
+}
+proj_struct!(Hygiene { state, x, e, v, s, key, value, error, location, map, result, field, tag_value, tag_value_string, deserr_seen, val, res });
+
+#[derive(Deserr, Debug)]
+#[deserr(tag = "t")]
+pub enum HygieneEnum {
+    A { state: u8, x: u8, e: u8, s: u8, v: u8, tag_value: u8, tag_value_string: u8 },
+    B { key: u8, value: u8, map: u8, error: u8 },
+}
+proj_enum!(HygieneEnum { A { state, x, e, s, v, tag_value, tag_value_string }, B { key, value, map, error } });
+
+/// raw identifiers under deny_unknown_fields (the accepted list is built from the same keys)
+#[derive(Deserr, Debug)]
+#[deserr(deny_unknown_fields, rename_all = camelCase)]
+pub struct DenyRaw {
+    r#type: u8,
+    r#impl: bool,
+    plain_one: Option<u8>,
+}
+proj_struct!(DenyRaw { r#type, r#impl, plain_one });
+
+/// names with characters that are escapes in Rust source
+#[derive(Deserr, Debug)]
+pub enum EscapedNames {
+    #[deserr(rename = "back\\slash")]
+    Back,
+    #[deserr(rename = "\\t")]
+    BackslashT,
+    #[deserr(rename = "real\ttab")]
+    Tab,
+    Plain,
+}
+proj_enum!(EscapedNames { Back, BackslashT, Tab, Plain });
+
+/// container try_from whose function returns the container's own error type
+#[derive(Deserr, Debug)]
+#[deserr(try_from(String) = ctry_same::<__Deserr_E> -> __Deserr_E)]
+pub struct CTrySame(pub String);
+fn ctry_same<E: deserr::DeserializeError>(s: String) -> Result<CTrySame, E> {
+    log_call("try_same_err", format!("{:?}", s.to_proj()), None);
+    if s.is_empty() {
+        Err(deserr::take_cf_content(E::error::<std::convert::Infallible>(
+            None,
+            deserr::ErrorKind::Unexpected { msg: "empty string (reported by the function itself)".into() },
+            deserr::ValuePointerRef::Origin,
+        )))
+    } else {
+        Ok(CTrySame(s))
+    }
+}
+impl ToProj for CTrySame {
+    fn to_proj(&self) -> Proj {
+        Proj::Struct("Wrap".into(), vec![("0".into(), Proj::Str(self.0.clone()))])
+    }
+}
+
+/// a conversion error that has a `source()`
+#[derive(Deserr, Debug)]
+pub struct PortS {
+    #[deserr(try_from(&String) = vf::try_port -> vf::Sourced)]
+    port: u16,
+    name: String,
+    #[deserr(default)]
+    backups: Vec<PortInner>,
+}
+proj_struct!(PortS { port, name, backups });
+
+#[derive(Deserr, Debug)]
+pub struct PortInner {
+    #[deserr(try_from(&String) = vf::try_port -> vf::Sourced)]
+    port: u16,
+}
+proj_struct!(PortInner { port });
+
 // ---------------------------------------------------------------------------------- default / skip
 #[derive(Deserr, Debug)]
 pub struct Defaults {
@@ -818,6 +916,23 @@ pub fn defs() -> Defs {
     d.add(Def::UnitEnum(udef("OddNames", &[("Coffee", "café"), ("Tea", "thé"), ("Green", "日本茶"), ("Long", "a_very_long_variant_name_for_the_largest_budget")])));
     d.add(Def::Enum(edef("DigitVariants", "v", vec![vd("V2Beta", "v2Beta", Some(vec![f("x", u(8))])), vd("Utf8Lossy", "utf8Lossy", None), vd("Plain7", "plain7", None)])));
     d.add(Def::UnitEnum(udef("DigitUnit", &[("V2Beta", "v2Beta"), ("Utf8Lossy", "utf8Lossy"), ("Sha256", "sha256")])));
+    d.add(st(StructDef {
+        deny: Deny::Default,
+        ..sdef("Hygiene", vec![f("state", u(8)), f("x", u(8)), f("e", u(8)), f("v", u(8)), f("s", u(8)), f("key", u(8)), f("value", u(8)), f("error", u(8)), f("location", u(8)), f("map", u(8)), f("result", u(8)), f("field", u(8)), f("tag_value", u(8)), f("tag_value_string", u(8)), f("deserr_seen", u(8)).default(pu(0)), f("val", u(64)).try_from("try_even"), f("res", u(8)).map("inc_u8")])
+    }));
+    d.add(Def::Enum(edef(
+        "HygieneEnum",
+        "t",
+        vec![
+            vd("A", "A", Some(vec![f("state", u(8)), f("x", u(8)), f("e", u(8)), f("s", u(8)), f("v", u(8)), f("tag_value", u(8)), f("tag_value_string", u(8))])),
+            vd("B", "B", Some(vec![f("key", u(8)), f("value", u(8)), f("map", u(8)), f("error", u(8))])),
+        ],
+    )));
+    d.add(st(StructDef { deny: Deny::Default, ..sdef("DenyRaw", vec![f("type", u(8)), f("impl", Ty::Bool), f("plain_one", opt(u(8))).key("plainOne")]) }));
+    d.add(Def::UnitEnum(udef("EscapedNames", &[("Back", "back\\slash"), ("BackslashT", "\\t"), ("Tab", "real\ttab"), ("Plain", "Plain")])));
+    d.add(Def::Conv(ConvDef { name: "CTrySame".into(), inter: Ty::Str, conv: Conv::TryFrom("try_same_err".into()), validate: None }));
+    d.add(st(sdef("PortInner", vec![f("port", Ty::Str).try_from("try_port")])));
+    d.add(st(sdef("PortS", vec![f("port", Ty::Str).try_from("try_port"), f("name", Ty::Str), f("backups", vec(named("PortInner"))).default(Proj::Seq(vec![]))])));
     d.add(st(sdef("LowerRaw", vec![f("type", u(8)), f("Other", Ty::Bool).key("other"), f("fn", opt(u(8)))])));
     d.add(st(sdef("CamelRaw", vec![f("match", u(8)), f("two_words", Ty::Bool).key("twoWords"), f("loop", opt(u(8))).key("r#loop")])));
     d.add(st(sdef(
@@ -1086,6 +1201,17 @@ pub fn registry() -> Registry {
     r.all::<OddNames>("OddNames", named("OddNames"), &["derive", "unit-enum", "rename"]);
     r.all::<DigitVariants>("DigitVariants", named("DigitVariants"), &["derive", "enum", "rename"]);
     r.all::<DigitUnit>("DigitUnit", named("DigitUnit"), &["derive", "unit-enum", "rename"]);
+    r.all::<Hygiene>("Hygiene", named("Hygiene"), &["derive", "deny", "conv", "hygiene"]);
+    r.all::<HygieneEnum>("HygieneEnum", named("HygieneEnum"), &["derive", "enum", "hygiene"]);
+    r.all::<DenyRaw>("DenyRaw", named("DenyRaw"), &["derive", "deny", "rename", "raw-ident"]);
+    r.all::<EscapedNames>("EscapedNames", named("EscapedNames"), &["derive", "unit-enum", "rename"]);
+    r.all::<CTrySame>("CTrySame", named("CTrySame"), &["derive", "conv"]);
+    r.all::<PortS>("PortS", named("PortS"), &["derive", "conv", "nested"]);
+    r.all::<Vec<()>>("Vec<()>", vec(Ty::Unit), CT);
+    r.all::<HashSet<()>>("HashSet<()>", set(Ty::Unit), CT);
+    r.all::<BTreeMap<String, ()>>("BTreeMap<String,()>", map(KeyTy::Str, Ty::Unit), CT);
+    r.all::<Vec<PhantomData<u8>>>("Vec<PhantomData<u8>>", vec(Ty::Phantom), CT);
+    r.all::<Option<Option<()>>>("Option<Option<()>>", opt(opt(Ty::Unit)), CT);
     r.all::<LowerRaw>("LowerRaw", named("LowerRaw"), &["derive", "rename", "raw-ident"]);
     r.all::<CamelRaw>("CamelRaw", named("CamelRaw"), &["derive", "rename", "raw-ident"]);
     r.all::<MissingRenamed>("MissingRenamed", named("MissingRenamed"), &["derive", "rename", "custom-fn"]);
